@@ -650,6 +650,7 @@ GOOD = [
     "{% assign key = kk %}{{ item[key] }} {{ prices[idx] | plus: row[col] }}\n{% for r in rows %}{{ r[col] }}{% endfor %}{% liquid echo item[key]\n echo row[col][key] %}",
     "{% doc -%}\n usage: {% if product %}{% form 'p' %}{% else %}\n{% enddoc %}{{ after.doc }}{%- doc %}{{ inner }}{% enddoc -%}\n{% assign dz = tail.v %}{{ dz }}",
     "{% assign rate = 2 %}\n{% render 'card.liquid' with product %}\n{% render 'row.liquid' for rows %}{% include 'card.liquid' with other %}\n{% include 'row.liquid' for more %}{{ footer | strip }}",
+    "\ufeff{{ bom.first | upcase }}\n{% assign after_bom = b.c %}{% if after_bom %}{% render 'part', pitems: z %}{% endif %}\ufeff{{ second.bom }}",
     "x {{ 'str' | append: v1 | replace: 'a', v2.w }} y {{ 1 | plus: n1.n | minus: 2.5 }} z {{ true }}{{ nil }}{{ (1..3) | join }}",
 ]
 NGOOD = len(GOOD)
@@ -729,7 +730,7 @@ def analyze_ok(k, partials, use_async):
 
 def c20_spans_analyze(k: int, partials: bool) -> bool:
     """
-    pre: 0 <= k < 31
+    pre: 0 <= k < 32
     post: _
     """
     if excluded("c20_spans_analyze", locals()):
@@ -739,7 +740,7 @@ def c20_spans_analyze(k: int, partials: bool) -> bool:
 
 def c20_spans_analyze_async(k: int, partials: bool) -> bool:
     """
-    pre: 0 <= k < 31
+    pre: 0 <= k < 32
     post: _
     """
     if excluded("c20_spans_analyze_async", locals()):
@@ -789,7 +790,7 @@ def tags_problems(k):
 
 def c20_spans_tag_analysis(k: int) -> bool:
     """
-    pre: 0 <= k < 46
+    pre: 0 <= k < 47
     post: _
     """
     if excluded("c20_spans_tag_analysis", locals()):
@@ -1107,7 +1108,7 @@ def selftest():
     for i, t in enumerate(TEMPLATES):
         if t is None:
             fails.append("GOOD[%d] does not parse: %r" % (i, GOOD[i]))
-    if (len(EXPRS), len(BAD_EXPRS), len(LIQS), len(BAD_LIQS), len(GOOD), len(TAG_SRCS), len(EOF_FAMILY), len(PARTIALS)) != (24, 8, 13, 3, 31, 46, 11, 7):
+    if (len(EXPRS), len(BAD_EXPRS), len(LIQS), len(BAD_LIQS), len(GOOD), len(TAG_SRCS), len(EOF_FAMILY), len(PARTIALS)) != (24, 8, 13, 3, 32, 47, 11, 7):
         fails.append("pool sizes drifted from the preconditions: %r" % ((len(EXPRS), len(BAD_EXPRS), len(LIQS), len(BAD_LIQS), len(GOOD), len(TAG_SRCS), len(EOF_FAMILY), len(PARTIALS)),))
     if max(len(v) for v in MALFORMED.values()) > 64:
         fails.append("malformed category larger than 64")
